@@ -49,6 +49,10 @@ class PathBudget(Exception):
     pass
 
 
+class GenStop(Exception):
+    """The consumer of a generator left its loop: the generator is closed."""
+
+
 class Frame:
     def __init__(self, func, module, env, self_cls=None, closure=None):
         self.func = func
@@ -123,6 +127,8 @@ class Interp:
         self.calls = []  # (qualname, args, kwargs, site, result)
         self.ext_calls = _Logged(self)  # (name, args, kwargs, site, result)
         self.timeline = []  # chronological ("call"|"ext", name, record)
+        self.gen_consumers = []  # scopes of loops that are being fed by a running generator (their names are loop-carried too)
+        self.yield_handlers = []  # (index of the first generator frame, callback) of the generators that are running
         self.decorated = {}  # id(FuncInfo) -> callable produced by applying its unmodelled decorators (once per run)
         self.stores = []  # (written tensor object, stored value, site) of every subscript store into a tensor
         self.call_ast = {}  # resolved callee name -> ast.Call nodes that invoked it (identity of the program model's nodes)
@@ -510,6 +516,24 @@ class Interp:
 
     def st_For(self, st):
         it = self.eval(st.iter)
+        if isinstance(it, VGen):
+            # the generator's body runs here; every yield executes this loop's body in this loop's frame
+            broke = []
+
+            def on_yield(v):
+                self.assign(st.target, v, st)
+                try:
+                    self.exec_block(st.body)
+                except ContinueEx:
+                    pass
+                except BreakEx:
+                    broke.append(True)
+                    raise GenStop()
+
+            self.run_generator(it, on_yield, st, scope={"env": self.frames[-1].env, "names": _assigned_names(st.body) | _target_names(st.target), "body": st.body})
+            if not broke:
+                self.exec_block(st.orelse)
+            return
         items = self.concrete_items(it)
         if items is not None and len(items) <= self.max_unroll:
             broke = False
@@ -526,6 +550,41 @@ class Interp:
                 self.exec_block(st.orelse)
             return
         self.summarise_loop(st, it)
+
+    def run_generator(self, gen, on_yield, node, scope=None):
+        if gen.started:
+            return  # an exhausted (or partly consumed) generator yields nothing more in this model
+        gen.started = True
+        func = gen.fv.func
+        base = len(self.frames)
+        self.frames.append(Frame(func, func.module, gen.env, self_cls=func.cls, closure=gen.fv.closure))
+        self.stack.append(func.qualname)
+        self.yield_handlers.append((base, on_yield, scope))
+        try:
+            try:
+                self.exec_block(func.node.body)
+            except (ReturnEx, GenStop):
+                pass
+        finally:
+            self.yield_handlers.pop()
+            self.stack.pop()
+            del self.frames[base:]
+
+    def ev_Yield(self, node):
+        if not self.yield_handlers:
+            raise Unsupported("yield outside a generator that is being consumed", node, self.site(node))
+        v = self.eval(node.value) if node.value is not None else VConst(None)
+        base, handler, _scope = self.yield_handlers[-1]
+        saved = self.frames[base:]
+        del self.frames[base:]
+        saved_handlers = self.yield_handlers
+        self.yield_handlers = saved_handlers[:-1]  # the consumer runs outside this generator
+        try:
+            handler(v)
+        finally:
+            self.yield_handlers = saved_handlers
+            self.frames.extend(saved)
+        return VConst(None)
 
     def concrete_items(self, it):
         if isinstance(it, VIter):
@@ -593,11 +652,19 @@ class Interp:
 
     def summarise_loop(self, st, it):
         """First + generic iteration; carried tensors / numbers become placeholders in the generic
-        pass.  The post-loop value of a carried location is loop(site, count, after_first, after_generic)."""
+        pass.  The post-loop value of a carried location is loop(site, count, after_first, after_generic).
+        Names are carried in the loop's own scope and in the scopes of consumers whose body runs at a `yield` inside this loop."""
         sid = self.site(st)
-        assigned = _assigned_names(st.body) | _target_names(st.target)
-        env = self.frames[-1].env
-        pre_env = {n: env.get(n) for n in assigned if n in env}
+        scopes = [(self.frames[-1].env, _assigned_names(st.body) | _target_names(st.target), st.body, "")]
+        if self.yield_handlers and self.yield_handlers[-1][0] == len(self.frames) - 1 and self.yield_handlers[-1][2] is not None:
+            # this loop is written in the body of the generator that is running: a `yield` inside it runs the consumer's body
+            c = self.yield_handlers[-1][2]
+            if c["env"] is not scopes[0][0]:
+                scopes.append((c["env"], c["names"], c["body"], "^"))
+        env = scopes[0][0]
+        assigned = scopes[0][1]
+        keys = [(k, n) for k, (_e, names, _b, _p) in enumerate(scopes) for n in sorted(names)]
+        pre_env = {(k, n): scopes[k][0].get(n) for k, n in keys if n in scopes[k][0]}
         info = {"site": sid, "iter": it, "first": None, "generic": None, "carried": {}, "node": st}
         self.loops.append(info)
         # ---- first iteration: real pre-loop values
@@ -612,11 +679,11 @@ class Interp:
             broke = True
         except ContinueEx:
             pass
-        after_first_env = {n: env.get(n) for n in assigned}
+        after_first_env = {(k, n): scopes[k][0].get(n) for k, n in keys}
         list_len_after_first = {oid: (len(lo.items) if lo.items is not None else None) for oid, (lo, _b) in list_before.items()}
         mutated = [o for o, t in snap_terms_before.items() if o.term is not t and o.term != t]
         after_first_terms = {o: o.term for o in mutated}
-        info["first"] = {"env": after_first_env, "terms": after_first_terms, "effects": self.effects[ne0:], "broke": broke}
+        info["first"] = {"env": {n: v for (k, n), v in after_first_env.items() if k == 0}, "terms": after_first_terms, "effects": self.effects[ne0:], "broke": broke}
         if broke:
             return
         # ---- generic iteration with placeholders
@@ -627,24 +694,25 @@ class Interp:
             s = "carry:%d@%s" % (k_, sid)
             carried_syms[o] = s
             o.term = T.sym(s)
-        for n in assigned:
-            v = env.get(n)
-            if n in pre_env or True:
-                if isinstance(v, VNum):
-                    s = "carry:%s@%s" % (n, sid)
-                    env[n] = VNum(v.kind, T.sym(s), pos=False, nonneg=False)
-                    carried_syms[n] = s
-                elif isinstance(v, VConst) and isinstance(v.value, (int, float)) and not isinstance(v.value, bool) and n in pre_env and _is_accumulated(st.body, n):
-                    s = "carry:%s@%s" % (n, sid)
-                    env[n] = VNum("float" if isinstance(v.value, float) else "int", T.sym(s))
-                    carried_syms[n] = s
-                elif isinstance(v, VTens) and v.obj not in carried_syms and n in pre_env and pre_env[n] is not v:
-                    # name rebound to a (possibly different) tensor each iteration
-                    s = "carry:%s@%s" % (n, sid)
-                    carried_syms[n] = s
-                    name_first_terms[n] = v.term
-                    if v.obj.origin == "fresh":
-                        v.obj.term = T.sym(s)
+        for k, n in keys:
+            e_, _names, body_, pfx = scopes[k]
+            ck_ = n if k == 0 else (k, n)
+            v = e_.get(n)
+            if isinstance(v, VNum):
+                s = "carry:%s%s@%s" % (pfx, n, sid)
+                e_[n] = VNum(v.kind, T.sym(s), pos=False, nonneg=False)
+                carried_syms[ck_] = s
+            elif isinstance(v, VConst) and isinstance(v.value, (int, float)) and not isinstance(v.value, bool) and (k, n) in pre_env and _is_accumulated(body_, n):
+                s = "carry:%s%s@%s" % (pfx, n, sid)
+                e_[n] = VNum("float" if isinstance(v.value, float) else "int", T.sym(s))
+                carried_syms[ck_] = s
+            elif isinstance(v, VTens) and v.obj not in carried_syms and (k, n) in pre_env and pre_env[(k, n)] is not v:
+                # name rebound to a (possibly different) tensor each iteration
+                s = "carry:%s%s@%s" % (pfx, n, sid)
+                carried_syms[ck_] = s
+                name_first_terms[(k, n)] = v.term
+                if v.obj.origin == "fresh":
+                    v.obj.term = T.sym(s)
         # list items that are numbers and were changed
         for oid, (lo, before) in list_before.items():
             if lo.items is not None and before is not None and len(lo.items) == len(before):
@@ -686,21 +754,22 @@ class Interp:
             first_t = after_first_terms[o]
             gen_t = o.term
             o.term = self._loop_result(sid, count, first_t, gen_t, carried_syms[o], it)
-        for n in assigned:
-            v = env.get(n)
-            s = carried_syms.get(n)
+        for k, n in keys:
+            e_ = scopes[k][0]
+            v = e_.get(n)
+            s = carried_syms.get(n if k == 0 else (k, n))
             if s is None:
                 continue
-            af = after_first_env.get(n)
+            af = after_first_env.get((k, n))
             if isinstance(v, VNum):
                 ft = num_term(af)
-                env[n] = VNum(v.kind, self._loop_result(sid, count, ft, v.term, s, it))
-            elif isinstance(v, VTens) and n in name_first_terms and v.obj.origin == "fresh" and v.obj not in carried_syms:
+                e_[n] = VNum(v.kind, self._loop_result(sid, count, ft, v.term, s, it))
+            elif isinstance(v, VTens) and (k, n) in name_first_terms and v.obj.origin == "fresh" and v.obj not in carried_syms:
                 gen_t = v.term
                 if gen_t is not None and T.Sym(s) in gen_t.all_atoms():
-                    r = self.fresh(self._loop_result(sid, count, name_first_terms[n], gen_t, s, it), v.shape, v.kind, st)
+                    r = self.fresh(self._loop_result(sid, count, name_first_terms[(k, n)], gen_t, s, it), v.shape, v.kind, st)
                     r.obj.valkind = v.obj.valkind
-                    env[n] = r
+                    e_[n] = r
         if not gen_broke:
             self.exec_block(st.orelse)
 
@@ -1071,6 +1140,12 @@ class Interp:
 
     def _invoke(self, func, args, kwargs, node, fv):
         env = self.bind(func, args, kwargs, node)
+        if _is_generator(func):
+            rec = [func.qualname, list(args), dict(kwargs), self.site(node) if self.frames else "<entry>", None, dict(env), None, {k: snapshot_terms(self, v) for k, v in env.items()}]
+            self.calls.append(rec)
+            self.timeline.append(("call", func.qualname, rec))
+            self.note_node(func.qualname, node)
+            return VGen(fv, env)
         cls = func.cls
         call_site = self.site(node) if self.frames else "<entry>"
         fr = Frame(func, func.module, env, self_cls=cls, closure=fv.closure)
@@ -1509,6 +1584,26 @@ def _key_value(k):
     if isinstance(k, tuple) and len(k) == 2 and k[0] == "sym":
         return VUnknown(k[1], "str")
     return VConst(k)
+
+
+def _is_generator(func):
+    g = getattr(func, "_is_gen", None)
+    if g is None:
+        g = False
+        stack = list(getattr(func.node, "body", []) or [])
+        while stack:
+            n = stack.pop()
+            if isinstance(n, (ast.Yield, ast.YieldFrom)):
+                g = True
+                break
+            if isinstance(n, (ast.FunctionDef, ast.AsyncFunctionDef, ast.Lambda, ast.ClassDef)):
+                continue
+            stack.extend(ast.iter_child_nodes(n))
+        try:
+            func._is_gen = g
+        except Exception:
+            pass
+    return g
 
 
 def _assigned_names(body):
